@@ -352,7 +352,9 @@ func (b *Builder) interfaceHash(t *types.Interface) (ret []byte, pkg string) {
 			pkg = m.Pkg().Path()
 		}
 		ft := b.FuncName(m.Type().(*types.Signature))
-		fmt.Fprintln(h, m.Name(), ft)
+		// Id qualifies an unexported name with its package: the name prefix keeps only
+		// the first such package, but methods m of two packages are different methods.
+		fmt.Fprintln(h, m.Id(), ft)
 	}
 	ret = h.Sum(b.buf[:0])
 	return
